@@ -38,6 +38,11 @@ def int32ToBytes (i : BitVec 32) : List Byte := beBytes 4 (int32ToU i).toNat
 def uToInt32 (u : BitVec 32) : BitVec 32 :=
   if (u >>> 31) == 1#32 then u &&& ~~~(1#32 <<< 31) else -((1#32 <<< 31) - u)
 
+/-- `Int16ToBytes` / `BytesToInt16`: plain big-endian two's complement (used for the decimal
+    exponent of float columns; round trip only, not an ordered encoding). -/
+def int16ToBytes (i : BitVec 16) : List Byte := beBytes 2 i.toNat
+def bytesToInt16 (bs : List Byte) : BitVec 16 := BitVec.ofNat 16 (ofBE (bs.take 2))
+
 /-! ### ordered floats -/
 
 /-- IEEE-754 binary64 `NaN` test on the bit pattern. -/
